@@ -115,7 +115,7 @@ package literal
 //@   ensures len(s.literals) <= old(len(s.literals)) && (sameslice(s.literals, old(s.literals)) || fresh(s.literals))
 //@ func (*Extractor).markAllInexact
 //@   props C17
-//@   requires s != nil && len(s.literals) <= 1000000
+//@   requires s != nil
 //@   modifies s.literals[*].Complete
 //@   ensures forall i :: 0 <= i && i < len(s.literals) ==> !s.literals[i].Complete
 //@   loop 1: invariant -1 <= rangeindex && rangeindex < rangelen && rangelen == len(s.literals) && (forall i :: 0 <= i && i <= rangeindex ==> !s.literals[i].Complete)
@@ -145,3 +145,14 @@ package literal
 //@   ensures sfold(result[len(result)-1]) == r
 //@   loop 1: invariant len(result) >= 1 && result[0] == r && fresh(result) && allocated(result) && f == sfold(result[len(result)-1])
 //@   loop 1: invariant forall k :: 0 <= k && k + 1 < len(result) ==> result[k+1] == sfold(result[k])
+
+// the other sites where a literal list is cut after trimming and dedup: the result must say so
+//@ func (*Extractor).handleCrossProductOverflow
+//@   props C17
+//@   requires e != nil && s != nil && e.config.MaxLiterals >= 0
+//@   modifies s.literals, s.partialCoverage, s.literals[*]
+//@   ghost kept = 0
+//@   after call Dedup: ghost kept = len(s.literals)
+//@   ensures result == s
+//@   ensures len(result.literals) < kept ==> result.partialCoverage
+//@   ensures old(s.partialCoverage) ==> result.partialCoverage
